@@ -9,7 +9,7 @@ for d in sorted(glob.glob("/verif/seeded/C*")):
     note = "; ".join(m.get("not_caught_by", []))
     if m.get("retired"):
         note = (note + "; " if note else "") + "RETIRED: " + m["retired"]
-    o = m.get("origin", ""); origin = "sub-agent, round 6" if "sixth round" in o else "sub-agent, round 5" if "fifth round" in o else "sub-agent, round 4" if "fourth round" in o else "sub-agent, round 3" if "third round" in o else ("sub-agent, round 2" if "second round" in o else "sub-agent, round 1")
+    o = m.get("origin", ""); origin = "sub-agent, round 7" if "seventh round" in o else "sub-agent, round 6" if "sixth round" in o else "sub-agent, round 5" if "fifth round" in o else "sub-agent, round 4" if "fourth round" in o else "sub-agent, round 3" if "third round" in o else ("sub-agent, round 2" if "second round" in o else "sub-agent, round 1")
     print(f"| {m['id']} | {m['breaks_property']} | {origin} | {m['needs_to_manifest']} | {', '.join(m['caught_by'])} | {note} |")
 own = json.load(open("/verif/seeded/own/results.json")) if os.path.exists("/verif/seeded/own/results.json") else {}
 for name, r in sorted(own.items()):
